@@ -184,6 +184,8 @@ pub struct World {
     pub reconnects: u32,
     /// PRNG walks: vary the size of inbound messages (see `in_publish`)
     pub size_mix: bool,
+    /// every third publish carries a content type and a user property of boundary sizes (see `rich_options`)
+    pub rich_pubs: bool,
 }
 
 #[derive(Default, Clone, Debug)]
@@ -313,6 +315,7 @@ impl World {
             sei: cfg.sei,
             reconnects: 0,
             size_mix: false,
+            rich_pubs: false,
             confirmed_inbound: 0,
         };
         if w.connack_sum.is_none() {
@@ -345,7 +348,14 @@ impl World {
                     Kind::Pub1 => 1,
                     _ => 2,
                 };
-                OpSpec::Publish(PubSpec::simple(q, &format!("o/{idx}"), format!("p{idx}").as_bytes()))
+                let mut sp = PubSpec::simple(q, &format!("o/{idx}"), format!("p{idx}").as_bytes());
+                if self.rich_pubs && idx % 3 == 2 {
+                    // rarely used options whose encoded size crosses the 1-/2-byte property-length boundary
+                    let (ct, up) = Self::rich_options(idx);
+                    sp.content_type = Some(ct);
+                    sp.user_props = up;
+                }
+                OpSpec::Publish(sp)
             }
             Kind::Sub => OpSpec::Subscribe(SubSpec::simple(&format!("f/{idx}"))),
             Kind::Unsub => OpSpec::Unsubscribe(UnsubSpec::simple(&format!("u/{idx}"))),
@@ -353,6 +363,24 @@ impl World {
             Kind::Disc => OpSpec::Disconnect(DiscSpec::default()),
             Kind::PubBig => OpSpec::Publish(PubSpec::simple(1, &format!("o/{idx}"), &Self::big_payload(idx))),
         }
+    }
+
+    /// properties the PUBLISH of op `i` must carry (content type first, then user properties)
+    pub fn want_pub_props(&self, i: usize) -> Vec<Prop> {
+        if self.rich_pubs && i % 3 == 2 && matches!(self.m[i].kind, Kind::Pub0 | Kind::Pub1 | Kind::Pub2) {
+            let (ct, up) = Self::rich_options(i);
+            let mut v = vec![Prop::str(3, &ct)];
+            v.extend(up.iter().map(|(k, val)| Prop::pair(k, val)));
+            v
+        } else {
+            Vec::new()
+        }
+    }
+
+    /// (content type, user properties) of the `idx`-th publish when `rich_pubs` is on: 20, 128 +- a few, 300 and ~17 000 bytes of properties
+    pub fn rich_options(idx: usize) -> (String, Vec<(String, String)>) {
+        let n = [20usize, 110, 117, 118, 119, 120, 300, 17_000][(idx / 3) % 8];
+        ("c".repeat(n), vec![("k".to_string(), format!("v{idx}"))])
     }
 
     pub fn big_payload(idx: usize) -> Vec<u8> {
@@ -1002,7 +1030,9 @@ impl World {
                             if !p.dup {
                                 self.viol(&["C17"], "C17/resent-publish-without-dup".into(), format!("op{i}: re-sent PUBLISH has DUP=0"));
                             }
-                            if p.id != self.m[i].pkt_id || p.qos != want_q || p.payload != format!("p{i}").into_bytes() || p.retain || !p.props.is_empty() {
+                            let mut got_props = p.props.clone();
+                            got_props.sort_by_key(|x| (x.id != 3, format!("{:?}", x)));
+                            if p.id != self.m[i].pkt_id || p.qos != want_q || p.payload != format!("p{i}").into_bytes() || p.retain || got_props != self.want_pub_props(i) {
                                 self.viol(&["C17"], "C17/resent-publish-differs".into(), format!("op{i}: re-sent {} differs from the original (id {:?}, qos {want_q})", CPacket::Publish(p.clone()).brief(), self.m[i].pkt_id));
                             }
                             self.m[i].req_wire = Some(widx);
@@ -1135,7 +1165,10 @@ impl World {
                     if p.dup {
                         self.viol(P_C06, format!("C06/dup-set-on-first-transmission/qos={}", p.qos), format!("op{i}: first PUBLISH has DUP=1"));
                     }
-                    if p.qos != want_q || p.retain || p.payload != want_payload || !p.props.is_empty() {
+                    let want_props = self.want_pub_props(i);
+                    let mut got_props = p.props.clone();
+                    got_props.sort_by_key(|x| (x.id != 3, format!("{:?}", x)));
+                    if p.qos != want_q || p.retain || p.payload != want_payload || got_props != want_props {
                         self.viol(
                             P_C06_01,
                             format!("C06/publish-fields-differ/qos={want_q}"),
